@@ -97,6 +97,7 @@ func candidatePairs(p *Program, r *Report, have map[string]bool) []inlinePair {
 		}
 	}
 	named := map[*types.Func]bool{}
+	inText := map[*types.Func]bool{} // functions the failure texts mention by name: their helpers come first
 	text := ""
 	anon := false
 	for _, o := range r.Obs {
@@ -114,6 +115,7 @@ func candidatePairs(p *Program, r *Report, have map[string]bool) []inlinePair {
 		// functions mentioned in the text of a failure (an anchor that could not be resolved names its function)
 		if strings.Contains(text, short) {
 			named[obj] = true
+			inText[obj] = true
 		}
 	}
 	if anon {
@@ -191,6 +193,9 @@ func candidatePairs(p *Program, r *Report, have map[string]bool) []inlinePair {
 					if !callee.Exported() {
 						score += 2
 					}
+					if inText[caller] {
+						score += 8
+					}
 					if byShortNamed(named, caller) && !anon {
 						score++
 					}
@@ -253,13 +258,39 @@ func evalView1(prop, repo, verif string, cfg Config, pairs []inlinePair, known [
 		return -1, ""
 	}
 	tmpR := &Report{Obs: sr.Obs, known: known}
-	return tmpR.newViolations(), failureSignature(tmpR)
+	return failureWeight(tmpR), failureSignature(tmpR)
+}
+
+// failureWeight: the measure the search descends on.  A missing anchor or an unmet floor hides every obligation the
+// anchor would have given rise to, so it weighs more than any number of concrete failures; zero means nothing fails.
+func failureWeight(r *Report) int {
+	w := 0
+	for _, o := range r.Obs {
+		if o.Status != "violated" {
+			continue
+		}
+		listed := false
+		for _, k := range r.known {
+			if k.Status == "known" && k.Rule == o.Rule && k.Function == o.Func && k.Construct == o.Construct {
+				listed = true
+			}
+		}
+		if listed {
+			continue
+		}
+		if strings.Contains(o.How, "kind=unresolved-anchor") || strings.Contains(o.How, "kind=below-floor") {
+			w += 100
+		} else {
+			w++
+		}
+	}
+	return w
 }
 
 func searchInlinedView(prop, tier, repo, verif string, cfg Config, f propFn, p *Program, r *Report) *Report {
 	st := &viewSearch{orig: r, prop: prop, tier: tier, repo: repo, verif: verif, cfg: cfg, f: f, known: r.known,
-		seenSig: map[string]bool{failureSignature(r): true}, budget: 96}
-	res, chosen := st.descend(nil, p, r, r.newViolations(), 0)
+		seenSig: map[string]bool{failureSignature(r): true}, budget: 40}
+	res, chosen := st.descend(nil, p, r, failureWeight(r), 0)
 	if res == nil {
 		return nil
 	}
@@ -313,10 +344,10 @@ func (st *viewSearch) lostObligations(view *Report) string {
 }
 
 // descend: depth-first over sets of expanded pairs.  A step adds one pair; it is taken if fewer obligations fail, or as
-// many but different ones (an anchor found, the next helper in the way).  At most three steps are tried from a state,
-// at most six pairs are stacked, at most 96 views are evaluated in all.
+// many but different ones (an anchor found, the next helper in the way).  At most two steps are tried from a state,
+// at most four are stacked, at most 40 views are evaluated in all (twelve at a time).
 func (st *viewSearch) descend(chosen []inlinePair, curP *Program, curR *Report, best, depth int) (*Report, []inlinePair) {
-	if depth >= 6 || st.budget <= 0 {
+	if depth >= 4 || st.budget <= 0 {
 		return nil, nil
 	}
 	have := map[string]bool{}
@@ -348,7 +379,7 @@ func (st *viewSearch) descend(chosen []inlinePair, curP *Program, curR *Report, 
 	results := make([]int, len(cands))
 	sigs := make([]string, len(cands))
 	var wg sync.WaitGroup
-	sem := make(chan struct{}, 6)
+	sem := make(chan struct{}, 12)
 	for i, c := range cands {
 		wg.Add(1)
 		go func(i int, c []inlinePair) {
@@ -377,7 +408,7 @@ func (st *viewSearch) descend(chosen []inlinePair, curP *Program, curR *Report, 
 			continue
 		}
 		st.seenSig[sigs[i]] = true
-		if tried == 3 {
+		if tried == 2 {
 			break
 		}
 		tried++
@@ -388,8 +419,9 @@ func (st *viewSearch) descend(chosen []inlinePair, curP *Program, curR *Report, 
 		}
 		nr := NewReport(st.prop, st.tier, st.verif, np)
 		st.f(np, nr)
+		nr.Explain += explainMore[st.prop]
 		nr.Seal()
-		if nr.newViolations() != results[i] {
+		if failureWeight(nr) != results[i] {
 			continue // the sub-process and this process disagree: do not trust the view
 		}
 		if results[i] == 0 {
